@@ -170,7 +170,7 @@ class Interp:
         s.mod, s.ex = mod, (ex or EX); s.steps = 0; s.max_steps = max_steps
         s.events = []      # (kind, msg, line)
         s.nobj = 0; s.fresh_n = 0
-        s.trig = {}; s.accesses = None; s.call_hooks = {}; s.lastframe = {}; s.frames = {}; s.stack = []
+        s.trig = {}; s.accesses = None; s.call_hooks = {}; s.lastframe = {}; s.frames = {}; s.stack = []; s.omp_mode = 'seq'; s.in_reduction = False; s.store_hooks = {}
     def fresh_real(s, p="f"):
         s.fresh_n += 1; return z3.Real("%s!%d" % (p, s.fresh_n))
     def newobj(s, name, size, init=None, kind="arg"):
@@ -222,14 +222,14 @@ class Interp:
         if off < 0 or off + nbytes > o.size:
             s.report("out-of-bounds", "%s %s size %d offset %d (+%d)" % ("write" if write else "read", o.name, o.size, off, nbytes), ins)
             raise PathEnd("oob")
-        if s.accesses is not None: s.accesses.append((o, off, nbytes, write, ins))
+        if s.accesses is not None: s.accesses.append((o, off, nbytes, write, ins, s.in_reduction))
         if o.kind == "shared" and getattr(s, "yield_hook", None): s.yield_hook(o, off, write, ins)
         return o, off
     def load(s, p, ty, ins):
         n = sizeof(ty)
         if isinstance(p, Ptr) and p.obj is not None and getattr(p.obj, "symbolic", False):
             o = p.obj; off = p.off if is_sym(p.off) else z3.IntVal(p.off)
-            if s.accesses is not None: s.accesses.append((o, off, n, False, ins))
+            if s.accesses is not None: s.accesses.append((o, off, n, False, ins, s.in_reduction))
             isf = ty in ("float", "double")
             rd = z3.Function("rd_" + o.name.split("#")[0], z3.IntSort(), z3.RealSort() if isf else z3.IntSort())
             v = rd(off)
@@ -250,10 +250,12 @@ class Interp:
         n = sizeof(ty)
         if isinstance(p, Ptr) and p.obj is not None and getattr(p.obj, "symbolic", False):
             o = p.obj; off = p.off if is_sym(p.off) else z3.IntVal(p.off)
-            if s.accesses is not None: s.accesses.append((o, off, n, True, ins))
+            if s.accesses is not None: s.accesses.append((o, off, n, True, ins, s.in_reduction))
             o.wlog.append((off, v, n)); return
         o, off = s.resolve(p, n, ins, True)
         if o.kind == "const": s.report("write-to-input", o.name, ins)
+        vn = getattr(o, "vname", None)
+        if vn in s.store_hooks: v = s.store_hooks[vn](s, o, v)
         o.mem[off] = (v, n)
     # ---- arithmetic helpers
     def use(s, v, ins, what="value"):
@@ -413,11 +415,32 @@ class Interp:
             return s.fbin("fadd", s.fbin("fmul", a[0], a[1], ins), a[2], ins)
         if name.startswith("__kmpc_for_static_init_4"):
             loc, gtid, sched, plast, plb, pub, pstride, incr, chunk = a
+            if s.omp_mode == "seq":      # one thread owns the whole iteration space
+                s.store(pstride, "i32", 1 << 30, ins); s.store(plast, "i32", 1, ins); return None
             s.store(plb, "i32", s.omp_iter, ins); s.store(pub, "i32", s.omp_iter, ins)
             s.store(pstride, "i32", 1 << 30, ins); s.store(plast, "i32", 0, ins); return None
-        if name in ("__kmpc_for_static_fini", "__kmpc_end_reduce_nowait", "__kmpc_barrier"): return None
-        if name == "__kmpc_reduce_nowait": return 0
+        if name == "__kmpc_for_static_fini": return None
+        if name == "__kmpc_barrier": return None
+        if name == "__kmpc_reduce_nowait": s.in_reduction = True; return 1
+        if name == "__kmpc_end_reduce_nowait": s.in_reduction = False; return None
         if name == "__kmpc_global_thread_num": return 0
+        if name == "__kmpc_push_num_threads": return None
+        if name == "__kmpc_fork_call":
+            # args: ident, argc, microtask (bitcast constexpr), captured pointers...
+            m = re.search(r"@([\w.$]+)", a[2][1] if isinstance(a[2], tuple) else str(a[2]))
+            fn = m.group(1); cap = a[3:]
+            def cell(v):
+                o = s.newobj("tid", 4, None, "priv"); o.mem[0] = (0, 4); return Ptr(o, 0)
+            if s.omp_mode == "seq":
+                s.call(fn, [cell(0), cell(0)] + list(cap)); return None
+            # footprint mode: two abstract iterations kA != kB of the same loop, each from the same pre-state
+            s.foot = []
+            for tag, k in zip("AB", s.omp_iters):
+                s.omp_iter = k; s.accesses = []; s.in_reduction = False
+                s.call(fn, [cell(0), cell(0)] + list(cap))
+                s.foot.append(list(s.accesses))
+            s.accesses = None
+            raise PathEnd("footprint")
         if name == "omp_get_thread_num": return s.cur_tid
         if name == "omp_get_num_threads": return s.num_threads
         if name in ("llvm.dbg.declare", "llvm.dbg.value", "llvm.lifetime.start.p0i8", "llvm.lifetime.end.p0i8"): return None
@@ -603,3 +626,39 @@ def rd(o, k, esize=None):
     return None
 def snapshot(o, count, esize=8):
     return [rd(o, k, esize) for k in range(count)]
+
+def symbolic_obj(it, name, kind="shared"):
+    """unbounded array with symbolic (UF) content: loads are rd_<name>(offset) overridden by the write log"""
+    o = it.newobj(name, 1 << 40, None, kind); o.symbolic = True; o.wlog = []; return o
+
+def footprint(mod, fname, setup, timeout_ms=20000, interp=None):
+    """Data-race / loop-carried-dependence query for the `#pragma omp parallel for` inside fname (IR built with -fopenmp).
+    setup(it) -> args (arrays should be symbolic_obj, sizes symbolic Ints; it.omp_iters = (kA, kB) with hypotheses).
+    Returns (npaths, nqueries, conflicts) where a conflict is a pair of accesses of two DIFFERENT iterations to overlapping
+    bytes of one object with at least one write (reduction epilogues exempt).  No bound on n or on the thread count."""
+    import common
+    cell = {}
+    def run():
+        it = (interp or Interp)(mod); it.omp_mode = "foot"; cell["it"] = it
+        args = setup(it)
+        it.call(fname, args)
+    npaths = nq = 0; conflicts = []; shared = set()
+    for res, pc, hyp, taken, status in symcore.explore(run, timeout_ms=timeout_ms):
+        it = cell["it"]
+        if status != "end:footprint":
+            if status == "ok": conflicts.append(("no parallel region reached", None, None)); 
+            continue
+        npaths += 1
+        kA, kB = it.omp_iters
+        A, B = it.foot
+        for (oa, offa, na, wa, ia, ra) in A:
+            for (ob, offb, nb, wb, ib, rb) in B:
+                if oa is not ob or not (wa or wb) or (ra and rb): continue
+                if oa.kind in ("priv",): continue
+                oa_ = offa if is_sym(offa) else z3.IntVal(offa); ob_ = offb if is_sym(offb) else z3.IntVal(offb)
+                r, m = common.solve(list(hyp) + list(pc) + [kA != kB, oa_ < ob_ + nb, ob_ < oa_ + na], timeout_ms, want_model=True); nq += 1
+                if r != "unsat":
+                    conflicts.append((oa.name.split("#")[0], (mod.srcline(ia.line), "write" if wa else "read"), (mod.srcline(ib.line), "write" if wb else "read"), r,
+                                      None if m is None else (str(m.eval(kA, model_completion=True)), str(m.eval(kB, model_completion=True)))))
+        for (oa, offa, na, wa, ia, ra) in A: shared.add((oa.name.split("#")[0], "w" if wa else "r", mod.srcline(ia.line)))
+    return npaths, nq, conflicts, sorted(shared, key=str)
